@@ -94,8 +94,72 @@ Definition prop_faithful (c : tg_case) : bool :=
     [types_equal] wrongly judged them equal - the recorded finding F3 (classifier
     [known_F3_conflation]: generation succeeded although the family is not skeleton-consistent; the
     driver attributes a failure to it only if the model reproduces the implementation's output) *)
+(** Registry-level reading of "coincidence-free" (the property's quantifier; DESIGN 3.3): for every
+    item-eligible entry the ids bound to its non-skipped parameters are pairwise distinct, and in
+    every field each structural occurrence of such an id (through sequences, arrays, tuples,
+    compact, bit sequences and the ARGUMENTS of named types, not into their fields) is accounted for
+    by an occurrence of the parameter's NAME in the field's recorded type name.  An occurrence
+    without a name is a concrete type that merely coincides with an argument - outside the class. *)
+Fixpoint occ_id (r : registry) (fuel : nat) (p id : N) : nat :=
+  match fuel with
+  | O => 1%nat   (* out of fuel: report an occurrence, i.e. treat as outside the class *)
+  | S fuel' =>
+      if N.eqb id p then 1%nat
+      else match resolve r id with
+           | None => O
+           | Some t =>
+               match t_def t with
+               | TDSequence x | TDArray _ x | TDCompact x => occ_id r fuel' p x
+               | TDTuple xs => fold_right (fun x acc => (occ_id r fuel' p x + acc)%nat) O xs
+               | TDBitSeq st od => (occ_id r fuel' p st + occ_id r fuel' p od)%nat
+               | TDComposite _ | TDVariant _ =>
+                   fold_right (fun x acc => (occ_id r fuel' p x + acc)%nat) O (param_ids t)
+               | TDPrimitive _ => O
+               end
+           end
+  end.
+
+(** identifier tokens of a recorded type name: maximal runs of letters, digits and [_] *)
+Fixpoint ident_tokens_go (s : string) (cur : string) (acc : list string) : list string :=
+  match s with
+  | EmptyString => if String.eqb cur "" then acc else cur :: acc
+  | String ch s' =>
+      if is_alpha ch || is_digit ch || is_underscore ch
+      then ident_tokens_go s' (cur ++ String ch EmptyString) acc
+      else ident_tokens_go s' "" (if String.eqb cur "" then acc else cur :: acc)
+  end.
+Definition ident_tokens (s : string) : list string := ident_tokens_go s "" [].
+Definition count_str (x : string) (l : list string) : nat :=
+  List.length (filter (String.eqb x) l).
+
+Definition all_fields (t : ty) : list field :=
+  match t_def t with
+  | TDComposite fs => fs
+  | TDVariant vs => flat_map v_fields vs
+  | _ => []
+  end.
+
+Definition named_params (t : ty) : list (string * N) :=
+  flat_map (fun p => match tp_ty p with Some i => [(tp_name p, i)] | None => [] end) (t_params t).
+
+Fixpoint nodup_N (l : list N) : bool :=
+  match l with [] => true | x :: l' => negb (mem_N x l') && nodup_N l' end.
+
+Definition cf_entry (r : registry) (t : ty) : bool :=
+  let ps := named_params t in
+  nodup_N (map snd ps) &&
+  forallb (fun f =>
+             let toks := ident_tokens (match f_type_name f with Some n => n | None => "" end) in
+             forallb (fun np : string * N =>
+                        Nat.leb (occ_id r (S (List.length r)) (snd np) (f_ty f)) (count_str (fst np) toks)) ps)
+          (all_fields t).
+
+Definition hyp_cf_reg (c : tg_case) : bool :=
+  let s := settings_of (tg_spec c) in
+  forallb (fun e => if item_eligible s (snd e) then cf_entry (tg_reg c) (snd e) else true) (tg_reg c).
+
 Definition prop_faithful_all (c : tg_case) : bool :=
-  if V.Model.Shape.root_freshb (settings_of (tg_spec c)) then faithful_obs c else true.
+  if V.Model.Shape.root_freshb (settings_of (tg_spec c)) && hyp_cf_reg c then faithful_obs c else true.
 (** positions (= ids) of the item-eligible entries whose skeleton differs from the skeleton of the
     first eligible entry with their path, paired with that first entry: the comparisons
     [types_equal later first] that must have said "equal" for generation to succeed *)
